@@ -6,5 +6,5 @@ export CARGO_NET_OFFLINE=true
 python3 translate/translate.py
 (cd lean && lake build Uom driver)
 [ -f harness/Cargo.lock ] || cp /repo/Cargo.lock harness/Cargo.lock
-(cd harness && cargo build --offline --features fl,allsi --target-dir target/fl,allsi --bin conv && cargo build --offline --features fl --target-dir target/fl --bin conv --bin ops --bin reg --bin usr && cargo build --offline --features wide --target-dir target/wide --bin ops --bin hist --bin convx --bin text --bin misc && cargo build --offline --features fl,allsi --target-dir target/fl,allsi --bin text)
+(cd harness && cargo build --offline --features fl,allsi --target-dir target/fl,allsi --bin conv && cargo build --offline --features fl --target-dir target/fl --bin conv --bin ops --bin reg --bin usr && cargo build --offline --features wide --target-dir target/wide --bin ops --bin hist --bin convx --bin text --bin misc && cargo build --offline --features wide-noauto --target-dir target/wide-noauto --bin hist && cargo build --offline --features fl,allsi --target-dir target/fl,allsi --bin text)
 echo setup-ok
